@@ -282,6 +282,12 @@ static bool gen_random(Ctx& ctx, Case& c) {
   int64_t hw = std::max<int64_t>(1, (int64_t)(M * r.real(0.02, 0.3))), hh = std::max<int64_t>(1, (int64_t)(M * r.real(0.02, 0.3)));
   if (r.chance(0.2)) hh = std::max<int64_t>(1, hw / r.irange(4, 40));
   int64_t cx = r.range(-M / 8, M / 8), cy = r.range(-M / 8, M / 8);
+  if (r.chance(0.3)) {                                       // rectangle far from the origin (absolute coordinates >> its size)
+    hw = std::max<int64_t>(1, hw >> r.irange(0, 12)); hh = std::max<int64_t>(1, hh >> r.irange(0, 12));
+    cx = r.coin() ? r.range(-(M - hw - 1), M - hw - 1) : (r.coin() ? 1 : -1) * (M - hw - 1 - r.range(0, M / 64));
+    cy = r.coin() ? r.range(-(M - hh - 1), M - hh - 1) : (r.coin() ? 1 : -1) * (M - hh - 1 - r.range(0, M / 64));
+    ctx.count("gen_random_rect_far_from_origin");
+  }
   RB R{ cx - hw, cy - hh, cx + hw, cy + hh };
   auto clampM = [&](int64_t v) { return std::min(std::max(v, -M), M); };
   auto anyp = [&]() { int64_t Rr = (int64_t)(std::max(hw, hh) * r.real(0.5, 2.5)) + 2; return Point64(clampM(cx + r.range(-Rr, Rr)), clampM(cy + r.range(-Rr, Rr))); };
@@ -295,7 +301,7 @@ static bool gen_random(Ctx& ctx, Case& c) {
   Paths64 PP;
   for (int i = 0; i < k; ++i) {
     Path64 P;
-    int kind = r.irange(0, 5);
+    int kind = r.irange(0, 6);
     switch (kind) {
       case 0: { int n = r.irange(2, 12); for (int j = 0; j < n; ++j) P.push_back(anyp()); break; }
       case 1: { int n = r.irange(2, 10); for (int j = 0; j < n; ++j) P.push_back(r.chance(0.35) ? bnd() : (r.coin() ? inp() : anyp())); break; }
@@ -324,6 +330,26 @@ static bool gen_random(Ctx& ctx, Case& c) {
         for (int j = 1; j < n; ++j) {
           if (hz) q.x = r.chance(0.3) ? (r.coin() ? R.l : R.r) : anyp().x; else q.y = r.chance(0.3) ? (r.coin() ? R.t : R.b) : anyp().y;
           P.push_back(q); hz = !hz; }
+        break; }
+      case 6: { // shallow crossings: long segments nearly parallel to a side that cross that side's line (run : rise up to 2^32 : 1)
+        int n = r.irange(1, 3);
+        for (int j = 0; j < n; ++j) {
+          bool horz_side = r.coin();                               // the side crossed is a horizontal one (top/bottom)
+          int64_t side = horz_side ? (r.coin() ? R.t : R.b) : (r.coin() ? R.l : R.r);
+          int64_t lo = horz_side ? R.l : R.t, hi = horz_side ? R.r : R.b, len = hi - lo;
+          int64_t along = r.chance(0.7) ? r.range(lo, hi) : (r.coin() ? lo - r.range(0, len / 4 + 2) : hi + r.range(0, len / 4 + 2));
+          int64_t rise = r.range(1, 1 + (r.chance(0.5) ? 16 : 4096));
+          int64_t run = (int64_t)std::ldexp(r.real(1.0, 2.0), r.irange(4, std::max(5, e - 1)));
+          int64_t t1 = r.range(0, 3), t2 = r.range(1, 3);          // end points at crossing -t1*(run,rise) and +t2*(run,rise), up to a sub-step shift
+          int64_t sh = r.range(0, run - 1);
+          int64_t sgn = r.coin() ? 1 : -1, sg2 = r.coin() ? 1 : -1;
+          Point64 a, b;
+          if (horz_side) { a = Point64(clampM(along - sgn * (t1 * run + sh)), clampM(side - sg2 * (t1 * rise + (sh ? 1 : 0)))); b = Point64(clampM(along + sgn * t2 * run), clampM(side + sg2 * t2 * rise)); }
+          else { a = Point64(clampM(side - sg2 * (t1 * rise + (sh ? 1 : 0))), clampM(along - sgn * (t1 * run + sh))); b = Point64(clampM(side + sg2 * t2 * rise), clampM(along + sgn * t2 * run)); }
+          if (r.coin()) std::swap(a, b);
+          P.push_back(a); P.push_back(b);
+          ctx.count("gen_shallow_crossing_segments");
+        }
         break; }
       default: { int n = r.irange(1, 3); for (int j = 0; j < n; ++j) P.push_back(r.chance(0.4) ? bnd() : (r.coin() ? inp() : anyp())); break; }
     }
